@@ -28,6 +28,11 @@ def schedule(seed):
     site, nth = r.choice([("batch.after_seqno", 1), ("batch.after_item", r.randrange(1, len(its) + 1)),
                           ("batch.before_publish", 1), ("batch.after_item", 1)])
     L = ["open %s" % mode, "ks h0 alpha", "ks h1 beta", "ks h2 gamma", "put h0 6b 00", "put h1 6b 00", "put h2 6b 00"]
+    # a third of the schedules run on a RECOVERED database (the counters and the snapshot tracker are built by
+    # Database::recover, not by create_new)
+    reopened = r.random() < 0.34
+    if reopened:
+        L += ["reopen", "ks h0 alpha", "ks h1 beta", "ks h2 gamma"]
     if maint == "flush":
         L += ["rotate h2", "pausepoint worker.flush.before 1 hold", "thread wk step &", "waitpause worker.flush.before"]
     elif maint == "major":
@@ -53,7 +58,8 @@ def schedule(seed):
     L += ["release %s" % site, "sleep 150"]
     after = len(L)
     L += ["scan s0 h0 fwd all", "scan s0 h1 fwd all", "snap s1 open", "scan s1 h0 fwd all", "scan s1 h1 fwd all"]
-    return dict(prog="\n".join(L) + "\n", items=its, maint=maint, site=site, mode=mode, win=win_start, after=after, tx=use_tx)
+    return dict(prog="\n".join(L) + "\n", items=its, maint=maint, site=site, mode=mode, win=win_start, after=after, tx=use_tx,
+                reopened=reopened)
 
 
 def parse(s):
@@ -142,6 +148,8 @@ def stress(seed):
         return " ".join(["h0:p:%s:%s" % (k, v) for k in keys[:NK // 2]] + ["h1:p:%s:%s" % (k, v) for k in keys] +
                         ["h0:p:%s:%s" % (k, v) for k in keys[NK // 2:]])
     L = ["open %s" % r.choice(["plain", "plain", "sw"]), "ks h0 alpha", "ks h1 beta", "batch - " + big("0000")]
+    if seed % 2:
+        L += ["reopen", "ks h0 alpha", "ks h1 beta"]      # every other run on a recovered database
     plan = ["w%d" % i for i in range(W) for _ in range(nb)] + ["r%d" % i for i in range(R) for _ in range(ns)]
     r.shuffle(plan)
     cnt = {}
@@ -210,12 +218,14 @@ def run(rep, tier, seed, build):
         rep.violation("# C06: a snapshot taken while %d writers commit 4-key batches (no maintenance running) shows a torn or "
                       "out-of-order batch: %s\n%s" % (x["writers"], x["bad"][0], x["prog"]))
     rep.coverage = dict(unconfirmed_alarms=unconf + unconf2, evaluations=n + sum(x["snapshots"] for x in st), stress_runs=len(st), race_rounds=8 * len(rc_),
-                        stress_snapshots=sum(x["snapshots"] for x in st), distinct_nontrivial=len({(x["sc"]["site"], x["sc"]["maint"], x["sc"]["mode"], len(x["sc"]["items"]), x["sc"]["tx"]) for x in res}),
+                        stress_snapshots=sum(x["snapshots"] for x in st), distinct_nontrivial=len({(x["sc"]["site"], x["sc"]["maint"], x["sc"]["mode"], len(x["sc"]["items"]), x["sc"]["tx"], x["sc"]["reopened"]) for x in res}),
+                        schedules_on_recovered_database=sum(1 for s in scs if s["reopened"]),
                         rule="schedules: a batch or transaction commit of 2-5 items over two keyspaces is held at a pause point (after "
                              "the seqno draw / after the i-th item / before publish); inside the window a reader opens a snapshot and "
                              "scans every keyspace, single scans run, and optionally a flush of a third keyspace (worker held after its "
                              "journal-lock section) or a major compaction completes; after release the same snapshot is re-read and a new "
-                             "one must see the whole batch; distinct by (site, maintenance, db mode, items, tx)",
+                             "one must see the whole batch; a third of the schedules first close and reopen the database; distinct by "
+                             "(site, maintenance, db mode, items, tx, recovered)",
                         samples=[scs[0]["prog"].splitlines()], schedules_with_maintenance=sum(1 for s in scs if s["maint"] != "none"),
                         known_finding_schedules=len(known), disagreements_checked=len(bad))
     rep.coverage.update(obligations=obl, discharged=dis if not pproblems else min(dis, obl - 1),
